@@ -451,6 +451,35 @@ def typeref_cases(chk):
     return cases
 
 
+def bound_name_of(imp):
+    m = _IMPORT_RE.match(imp)
+    if not m:
+        return None
+    return (m.group(3) or m.group(2)) if m.group(1) is not None else m.group(5)
+
+
+def odd_segment(p):
+    return any("_" in seg or re.search(r"[0-9][a-z]", seg) for seg in p)
+
+
+def alias_collisions(cur, targets):
+    """two different target packages must not be bound to one name in the module of `cur`"""
+    seen, out = {}, []
+    for tgt in targets:
+        r = impl_typeref(dot(cur), fq(tgt, "Msg"), True, False)
+        if "|" not in r:
+            continue
+        name = bound_name_of(r.split("|", 1)[1])
+        if name is None:
+            continue
+        if name in seen and seen[name] != tgt:
+            out.append(("alias-collision", {"cur": dot(cur), "tgts": [dot(seen[name]), dot(tgt)], "alias": name,
+                                            "features": ["underscore-or-digit-boundary-segment"] if odd_segment(seen[name]) or odd_segment(tgt) else []},
+                        "both imported as %s" % name))
+        seen.setdefault(name, tgt)
+    return out
+
+
 def expected_resolution(c, src):
     """(module path below the root, class name) protoc + the plugin generate for the type `src` = .pkg.Type[.Nested]"""
     parts = src.lstrip(".").split(".")
@@ -495,6 +524,16 @@ def run(chk, drv):
             chk.case("PARSE " + s, True)
             if r != want:
                 chk.disagree("parse_source_type_name", s, r, want)
+
+    # ---------------- many references in one module: bound names must be pairwise distinct (real function)
+    col0 = Collector(chk)
+    for alpha, depth in ((["a", "b", "c"], 3), (["a", "b", "c", "b_c"], 2 if quick else 3), (["v1", "x2y", "x2", "y"], 2)):
+        ps = paths(alpha, depth)
+        for cur in ps:
+            for kind, inp, detail in alias_collisions(cur, ps):
+                col0.fail(kind, inp, detail)
+            chk.count("alias_modules")
+    col0.flush()
 
     # ---------------- (b) real generation
     us = universes(chk)
@@ -561,6 +600,8 @@ def classify(failure, known):
     inp = failure.get("input") or {}
     kind = failure["kind"]
     feats = inp.get("features") or []
+    if kind == "alias-collision":
+        return "D20" if "D20" in ids and "underscore-or-digit-boundary-segment" in feats else None
     if kind not in ("reference-unresolvable", "reference-wrong-class", "package-not-importable", "roundtrip-through-reference-failed"):
         return None
     if "D19" in ids and ("capitalised-package-segment" in feats or ("lower-case-type-name" in feats and
@@ -586,6 +627,10 @@ def replay(chk, rp):
     if not fl:
         return True
     inp = fl["input"]
+    if fl["kind"] == "alias-collision":
+        cur = tuple(inp["cur"].split(".")) if inp["cur"] else ()
+        tg = [tuple(x.split(".")) if x else () for x in inp["tgts"]]
+        return bool(alias_collisions(cur, tg))
     tag = inp.get("universe") if isinstance(inp.get("universe"), dict) else inp
     if not isinstance(tag, dict) or "packages" not in tag:
         return True
